@@ -176,4 +176,80 @@ theorem exec_refPrelude (call : CallFn N) (ρ : ExtOracle N) (k : Nat) (env : En
   rw [e2']
   exact h1
 
+/-- without modules the reference prelude runs at every level (no indexed assignment) -/
+theorem exec_refPrelude_nil (call : CallFn N) (ρ : ExtOracle N) (k : Nat) (env : Env N) (fb : FnBody) (σ : State N) :
+    ∃ (env1 : Env N) (σ' : State N),
+      execSs call ρ k env [refLa, .localFn .loc "__ref_require" fb] σ = .ok (.next env1) σ' ∧
+      StExt σ σ' ∧ env1.varargs = env.varargs ∧
+      env1.locals = ("__ref_require", σ.cells.length + 2) :: ("__ref_modules", σ.cells.length + 1) ::
+        ("__ref_loaded", σ.cells.length) :: env.locals := by
+  have e1 := exec_refLa call ρ k env σ
+  have hA : StExt σ (afterRefLa σ) := by
+    unfold afterRefLa
+    exact ((StExt.allocTable σ _).trans (StExt.allocTable _ _)).trans ((StExt.allocCell _ _).trans (StExt.allocCell _ _))
+  have hlenC : (afterRefLa σ).cells.length = σ.cells.length + 2 := by simp [afterRefLa, State.allocTable, State.allocCell]
+  let env2 : Env N := ⟨("__ref_modules", σ.cells.length + 1) :: ("__ref_loaded", σ.cells.length) :: env.locals, env.varargs⟩
+  let env3 : Env N := ⟨("__ref_require", σ.cells.length + 2) :: env2.locals, env.varargs⟩
+  let σ3 : State N := (((afterRefLa σ).allocCell .nil).2.allocClosure ⟨fb, env3.locals, []⟩).2.setCell (σ.cells.length + 2)
+    (.fn (afterRefLa σ).closures.length)
+  have e2 : execS call ρ k env2 (.localFn .loc "__ref_require" fb) (afterRefLa σ) = .ok (.next env3) σ3 := by
+    simp [execS, State.allocClosure, State.allocCell, hlenC, env3, env2, σ3]
+  have hB : StExt σ σ3 := by
+    have h1 := hA.trans ((StExt.allocCell (afterRefLa σ) .nil).trans (StExt.allocClosure _ ⟨fb, env3.locals, []⟩))
+    exact StExt.setNewCell h1 (by simp) _
+  refine ⟨env3, σ3, ?_, hB, rfl, rfl⟩
+  simp only [execSs, e1, Res.bind]
+  have e2' : execS call ρ k ⟨("__ref_modules", σ.cells.length + 1) :: ("__ref_loaded", σ.cells.length) :: env.locals,
+      env.varargs⟩ (.localFn .loc "__ref_require" fb) (afterRefLa σ) = .ok (.next env3) σ3 := e2
+  rw [e2']
+
+/-- explicit state after the reference prelude with ONE module -/
+def afterRefPrelude1 (fb : FnBody) (nb : String × Block) (σ : State N) : State N :=
+  let env3 : List (String × Nat) :=
+    [("__ref_require", σ.cells.length + 2), ("__ref_modules", σ.cells.length + 1), ("__ref_loaded", σ.cells.length)]
+  let σ3 : State N := (((afterRefLa σ).allocCell .nil).2.allocClosure ⟨fb, env3, []⟩).2.setCell (σ.cells.length + 2)
+    (.fn (afterRefLa σ).closures.length)
+  (σ3.allocClosure ⟨.mk [] false none none [] [] nb.2, env3, []⟩).2.rawSet (σ.tables.length + 1)
+    (.str (strToBytes nb.1)) (.fn σ3.closures.length)
+
+theorem exec_refPrelude_one (call : CallFn N) (ρ : ExtOracle N) (k : Nat) (fb : FnBody) (nb : String × Block) (σ : State N) :
+    execSs call ρ (k + 1) ⟨[], []⟩ ([refLa, .localFn .loc "__ref_require" fb] ++ [refAssign nb]) σ
+      = .ok (.next ⟨[("__ref_require", σ.cells.length + 2), ("__ref_modules", σ.cells.length + 1),
+          ("__ref_loaded", σ.cells.length)], []⟩) (afterRefPrelude1 fb nb σ) := by
+  have e1 := exec_refLa call ρ (k + 1) ⟨[], []⟩ σ
+  have hlenC : (afterRefLa σ).cells.length = σ.cells.length + 2 := by simp [afterRefLa, State.allocTable, State.allocCell]
+  let env3 : Env N := ⟨[("__ref_require", σ.cells.length + 2), ("__ref_modules", σ.cells.length + 1),
+    ("__ref_loaded", σ.cells.length)], []⟩
+  let σ3 : State N := (((afterRefLa σ).allocCell .nil).2.allocClosure ⟨fb, env3.locals, []⟩).2.setCell (σ.cells.length + 2)
+    (.fn (afterRefLa σ).closures.length)
+  have e2 : execS call ρ (k + 1) ⟨[("__ref_modules", σ.cells.length + 1), ("__ref_loaded", σ.cells.length)], []⟩
+      (.localFn .loc "__ref_require" fb) (afterRefLa σ) = .ok (.next env3) σ3 := by
+    simp [execS, State.allocClosure, State.allocCell, hlenC, env3, σ3]
+  have hcell : σ3.getCell (σ.cells.length + 1) = .tbl (σ.tables.length + 1) := by
+    simp [σ3, State.getCell, State.setCell, State.allocClosure, State.allocCell, afterRefLa, State.allocTable,
+      Heap.getElem?_listSet]
+  have hmt : (σ3.getTable (σ.tables.length + 1)).mt = none := by
+    simp [σ3, State.getTable, State.setCell, State.allocClosure, State.allocCell, afterRefLa, State.allocTable]
+  have e3 := exec_refAssign call ρ k env3 nb (σ.cells.length + 1) (σ.tables.length + 1) σ3
+    (by simp [env3, lookupAssoc]) hcell hmt
+  simp only [List.cons_append, List.nil_append, execSs, e1, Res.bind]
+  rw [e2]
+  simp only []
+  rw [e3]
+  rfl
+
+/-- the textbook `require` of the reference program -/
+def refRequireFn : FnBody := .mk [.mk "name" none] false none none [] []
+  (.mk
+    [ .localAssign .loc [.mk "box" none] [.index (.var "__ref_loaded") (.var "name")],
+      .ifs [(.bin .eq (.var "box") .nil,
+        .mk [ .assign [.var "box"]
+                [.table [.named "value" (.paren (.call (.index (.var "__ref_modules") (.var "name")) none .tuple []))]],
+              .assign [.index (.var "__ref_loaded") (.var "name")] [.var "box"] ] none)] none ]
+    (some (.ret [.field (.var "box") "value"])))
+
+/-- the call that stands for `require` of module `n` in the reference program -/
+def refCall (n : String) : Expr := .call (.var "__ref_require") none .tuple [.str (strToBytes n)]
+
+
 end DarkluaModel.C05
